@@ -19,6 +19,7 @@ import OdlModel.Lemmas.DerivReal
 import OdlModel.Lemmas.DerivLeaves
 import OdlModel.Lemmas.DerivLeafComp
 import OdlModel.Lemmas.DerivLin
+import OdlModel.Model.DerivUfuncComp
 
 open OdlModel.Deriv OdlModel.Deriv.Impl OdlModel.Deriv.Dual
 
@@ -660,3 +661,40 @@ example : (Lin.pwsum 3 1 : Lin ℝ).wf = true ∧
   refine ⟨by decide, ?_, ?_⟩ <;> norm_num [Lin.pwsum, Lin.deriv, Lin.run, sumTo]
 
 end leaves
+
+section ufunccomp
+open OdlModel.UfuncDeriv OdlModel.Gen.UfuncDeriv
+
+/-- ROUND 6 — ufunc operators INSIDE trees: the chain rule through the executed composition
+`OperatorComp(ufunc(rn(n)), tree)` (`Model/DerivUfuncComp.lean`, driver op `ucomp`, stream `ucomp`:
+tree at `Rat`, the ufunc and the GENERATED `derivative_factory` table at `Float`, compared with the
+code to rel. 1e-13), read at `ℝ` (`Fn.real`, `Expr.eval`, `cast = id`) with `ufunc_table_sound` as the
+leaf: for every branch of the extracted table, EVERY well-formed tree of the model `Impl` into a real
+space, every base point, direction and output entry `k` at which the ufunc is differentiable at the
+inner value `tree(x)_k`, `derivative(x)` does not raise and `s ↦ f(tree(x + s d)_k)` has at `0` the
+derivative `tree.derivative(x)(d)_k · f'(tree(x)_k)` — the `MultiplyOperator` multiplicand is
+evaluated at `right(x)`, not at `x`. -/
+theorem C06.ufunc_comp_line_hasDerivAt [DecidableEq ℝ] (p : Fn × Expr) (hp : p ∈ table)
+    (i : Impl ℝ) (hwf : ucompWf i = true) (x d : Vec ℝ) (k : Nat)
+    (hs : p.1.smoothAt (i.run x k)) :
+    ∃ v, ucompDeriv id (fun t => p.2.eval p.1 t) i x d = some v ∧
+      HasDerivAt (fun s : ℝ => ucompRun id p.1.real i (fun m => x m + s * d m) k) (v k) 0 := by
+  have hiwf : i.wf = true := by
+    simp only [ucompWf, Bool.and_eq_true] at hwf
+    exact hwf.1.1.1
+  obtain ⟨j, hj, _⟩ := deriv_type i x hiwf
+  have hc := impl_hasDerivAt_line i hiwf x d j hj k
+  have e0 : (fun m => x m + (0 : ℝ) * d m) = x := by funext m; simp
+  have h1 := C06.ufunc_table_sound p hp (i.run x k) hs
+  have h2 := h1.comp_of_eq (0 : ℝ) hc (by simp only [e0])
+  refine ⟨fun k => id (j.run d k) * p.2.eval p.1 (id (i.run x k)), by simp only [ucompDeriv, hj], ?_⟩
+  simp only [id_eq]
+  rw [mul_comm]
+  exact h2
+
+/-- Non-vacuity: `sin ∘ (x² + A x)` on `ℝ²` is well formed and `sin` is smooth everywhere. -/
+example : ucompWf (Impl.sum (.power 2 2) (.matrix 2 2 (fun r c => ((r + c : Nat) : ℝ))) none none : Impl ℝ) = true ∧
+    (Fn.sin, Expr.app Fn.cos) ∈ table ∧ ∀ t : ℝ, Fn.sin.smoothAt t := by
+  refine ⟨by decide, by decide, fun _ => trivial⟩
+
+end ufunccomp
